@@ -1,5 +1,4 @@
 import Cctp.Lemmas.Typed
-import Cctp.Gen.Signers
 /-
   C10 — privileged actions require the matching role.
   No finiteness assumption on the account universe: the proofs never enumerate accounts.
@@ -95,10 +94,6 @@ theorem privileged_count :
       .replaceDepositForBurn [] [] [] [] [], .replaceMessage [] [] [] [] [], .sendMessage [] 0 [] [],
       .sendMessageWithCaller [] 0 [] [] []].any privileged) = false := by decide
 
-/-- the submitter the handlers compare with a role is the transaction's signer: every one of the 25 Msg types
-    declares `from` as its signer (regenerated from tx.proto on every run; the ante handler that enforces the
-    signature is the SDK's and is not modelled). -/
-theorem signer_is_from : Gen.signers.length = 25 ∧ (Gen.signers.all fun e => e.2 == "from") = true := by decide
 
 /-! non-vacuity: with pauser = [1], a pause by [2] fails and by [1] succeeds -/
 example : getRole [(Key.pauser, .role [1])] Key.pauser ≠ some [2] := by decide
